@@ -194,7 +194,7 @@ func TestC08_Histories(t *testing.T) {
 
 // Concurrent batches: the multiset of outputs equals the multiset of chunks handed out.
 type c08ConcCase struct {
-	Seed uint64 `json:"seed"`
+	Seed uint64  `json:"seed"`
 	Ops  [][]int `json:"ops"` // per goroutine
 }
 
